@@ -3,6 +3,9 @@
 -/
 import Asn1.Generated
 import Proofs.Fuel
+import Proofs.EncSpec
+import Props.C02
+import Props.C18
 
 namespace Asn1.C06
 
@@ -29,6 +32,50 @@ theorem prefix_underrun_der (ty : Ty) (t : TLV) (k : Nat) (hw : t.WF) (hd : t.al
     (hk : k < t.ser.length) :
     decodeOne Generated.derDecByType ty (t.ser.take k) = .error .underrun :=
   prefix_underrun _ ty t k hw (Or.inr hd) hk
+
+/-- **every proper prefix of an encoding the library writes is reported as insufficient data** - for every type of
+    the codec region and every value, BER in any mode (definite/indefinite, any chunk size), DER and CER, decoded with
+    the guiding type by any decoder that can read the complete encoding: cut anywhere, the answer is the
+    insufficient-data class, never a value and never another error -/
+theorem encoding_prefix_underrun (cfg : EncCfg) (dcfg : DecCfg) (pf : Profile) (o : EncOpts) (hi : o.ifNotEmpty = false)
+    (hR : EncRegion cfg pf (cfg.fixedChunk.getD o.maxChunk))
+    (hparse : cfg.fixedDefMode.getD o.defMode = true ∨ dcfg.parse.allowIndef = true)
+    (t : Ty) (v : Val) (b : Bytes) (hreg : t.reg true cfg (cfg.fixedDefMode.getD o.defMode) = true) (hwf : t.WF = true)
+    (hty : HasType t v = true) (hn : noE3 cfg.seqOmitEmpty t v = true) (h : encItem cfg o t v = .ok b)
+    (k : Nat) (hk : k < b.length) : decodeOne dcfg t (b.take k) = .error .underrun := by
+  have h' : finishItem cfg (mkO (cfg.fixedDefMode.getD o.defMode) (cfg.fixedChunk.getD o.maxChunk) o.ifNotEmpty) t
+      (encValue cfg (mkO (cfg.fixedDefMode.getD o.defMode) (cfg.fixedChunk.getD o.maxChunk) o.ifNotEmpty) t v) = .ok b := h
+  obtain ⟨x, hb, hxw, _, hxd, _⟩ := encode_spec cfg pf _ _ hR o.ifNotEmpty hi t v b hreg hwf hty hn h'
+  subst hb
+  exact prefix_underrun dcfg t x k hxw (by
+    rcases hparse with hp | hp
+    · exact Or.inr (hxd hp)
+    · exact Or.inl hp) hk
+
+/-- instances for the generated configurations -/
+theorem ber_encoding_prefix_underrun (o : EncOpts) (hi : o.ifNotEmpty = false) (t : Ty) (v : Val) (b : Bytes)
+    (hreg : t.reg true Generated.berEnc o.defMode = true) (hwf : t.WF = true) (hty : HasType t v = true)
+    (h : encItem Generated.berEnc o t v = .ok b) (k : Nat) (hk : k < b.length) :
+    decodeOne Generated.berDecByType t (b.take k) = .error .underrun :=
+  encoding_prefix_underrun Generated.berEnc Generated.berDecByType berProfile o hi (C18.ber_enc_region o) (Or.inr rfl)
+    t v b hreg hwf hty (noE3_false t v) h k hk
+
+theorem der_encoding_prefix_underrun (o : EncOpts) (hi : o.ifNotEmpty = false) (t : Ty) (v : Val) (b : Bytes)
+    (hreg : t.reg true Generated.derEnc true = true) (hwf : t.WF = true) (hty : HasType t v = true)
+    (hn : noE3 true t v = true) (h : encItem Generated.derEnc o t v = .ok b) (k : Nat) (hk : k < b.length) :
+    decodeOne Generated.derDecByType t (b.take k) = .error .underrun ∧
+    decodeOne Generated.berDecByType t (b.take k) = .error .underrun :=
+  ⟨encoding_prefix_underrun Generated.derEnc Generated.derDecByType derProfile o hi (C02.der_region o) (Or.inl rfl)
+      t v b hreg hwf hty hn h k hk,
+   encoding_prefix_underrun Generated.derEnc Generated.berDecByType derProfile o hi (C02.der_region o) (Or.inl rfl)
+      t v b hreg hwf hty hn h k hk⟩
+
+theorem cer_encoding_prefix_underrun (o : EncOpts) (hi : o.ifNotEmpty = false) (t : Ty) (v : Val) (b : Bytes)
+    (hreg : t.reg true Generated.cerEnc false = true) (hwf : t.WF = true) (hty : HasType t v = true)
+    (hn : noE3 true t v = true) (h : encItem Generated.cerEnc o t v = .ok b) (k : Nat) (hk : k < b.length) :
+    decodeOne Generated.cerDecByType t (b.take k) = .error .underrun :=
+  encoding_prefix_underrun Generated.cerEnc Generated.cerDecByType cerProfile o hi (C02.cer_region o) (Or.inr rfl)
+    t v b hreg hwf hty hn h k hk
 
 /-- the error hierarchy of the source: end-of-stream is an insufficient-data error, which is a
     library error (generated table) -/
